@@ -142,3 +142,96 @@ func (e *Engine) noteAssume(x *ssa.Call) {
 		e.assumeTexts[filepath.Base(real)+": "+strings.TrimSpace(lines[pos.Line-1])] = true
 	}
 }
+
+// ---- thread-modular ownership (C09/C11/C15 concurrency clauses) ----
+
+// markReachable adds every heap object reachable from v to set (pool contents are not followed: an
+// object sitting in a sync.Pool is owned by the pool, and by exactly one getter after Get).
+func (e *Engine) markReachable(st *State, v Value, set map[int]bool) {
+	switch tv := v.(type) {
+	case PtrV:
+		e.markObj(st, tv.Obj, set)
+	case SliceV:
+		e.markObj(st, tv.Obj, set)
+	case StringV:
+		e.markObj(st, tv.Obj, set)
+	case MapV:
+		e.markObj(st, tv.Obj, set)
+	case IfaceV:
+		if tv.T != nil {
+			e.markReachable(st, tv.V, set)
+		}
+	case FuncV:
+		for _, b := range tv.Bind {
+			e.markReachable(st, b, set)
+		}
+	case StructV:
+		for _, f := range tv.Fields {
+			e.markReachable(st, f, set)
+		}
+	case ArrayV:
+		for _, x := range tv.Elems {
+			e.markReachable(st, x, set)
+		}
+	case TupleV:
+		for _, x := range tv {
+			e.markReachable(st, x, set)
+		}
+	}
+}
+
+func (e *Engine) markObj(st *State, id int, set map[int]bool) {
+	if id == 0 || set[id] {
+		return
+	}
+	o, ok := st.heap[id]
+	if !ok {
+		return // immutable global constant
+	}
+	set[id] = true
+	switch o.Kind {
+	case OCell:
+		e.markReachable(st, o.Val, set)
+	case OVec:
+		for _, x := range o.Vec {
+			e.markReachable(st, x, set)
+		}
+	case OMap:
+		for _, en := range o.Ents {
+			e.markReachable(st, en.K, set)
+			e.markReachable(st, en.V, set)
+		}
+	}
+}
+
+func (e *Engine) ownershipViolation(st *State, id int) {
+	o := e.obj(st, id)
+	where, site := "?", "?"
+	if e.curInstr != nil {
+		where, site = e.whereOf(st, e.curInstr)
+	}
+	key := "ownership|" + where
+	if e.seenViol[key] {
+		return
+	}
+	e.seenViol[key] = true
+	v := Violation{Kind: "ownership", Label: "non-atomic write to an object other goroutines can reach (" + o.Name + ")", Where: where, Site: site, Model: map[string]uint64{}}
+	if r, m := e.check(append([]*Term(nil), st.pc...)); r == RSat && m != nil {
+		for k, x := range m.BV {
+			v.Model[k] = x
+		}
+		for k, x := range m.B {
+			if x {
+				v.Model[k] = 1
+			} else {
+				v.Model[k] = 0
+			}
+		}
+		for an, am := range m.Arr {
+			for i, x := range am.M {
+				v.Model[fmt.Sprintf("%s[%d]", an, i)] = x
+			}
+		}
+	}
+	e.Violations = append(e.Violations, v)
+}
